@@ -137,6 +137,10 @@ func fresh(input []byte, k int) (*iox.OctetsStream, *iox.OctetsReader) {
 var m0, m1 runtime.MemStats
 var lines int
 
+// number of calls so far whose allocation exceeded the bound; the generator stops producing further random cases once
+// this is large (the check has failed already; every further 2 GiB allocation costs about a second)
+var allocViolations int
+
 func exec(c *hx.Ctx, line string) string {
 	lines++
 	if lines%20000 == 0 {
@@ -213,6 +217,7 @@ func exec(c *hx.Ctx, line string) string {
 		a := 0
 		if allocated > uint64(2*remaining+64) {
 			a = 1
+			allocViolations++
 		}
 		if allocated > 1<<20 {
 			// GC is off: give a large allocation back at once, otherwise a few hostile prefixes exhaust the address space
